@@ -36,6 +36,70 @@ def circulation(getH, centre, radius, rot, n):
     return f.sum(), np.abs(f).sum()
 
 
+def _rect_jac(b, c, s, q):
+    """Jacobian of the field of the uniformly charged rectangle |x'|<=b, |y'|<=c, z'=s (times 4 pi): python transcription
+    of `rectJac` of lean/MagpyVerif/Lemmas/CuboidDiv.lean (rows: components along u, v, w; columns: d/du, d/dv, d/dw)"""
+    w = q[2] - s
+
+    def corner(u, v):
+        r = np.sqrt(u * u + v * v + w * w)
+        U, V = u * u + w * w, v * v + w * w
+        return np.array([
+            [u * v / (U * r) + u / U, -1 / r, w * v / (U * r) + w / U],
+            [-1 / r, v * u / (V * r) + v / V, w * u / (V * r) + w / V],
+            [v * w / (U * r), u * w / (V * r), -(u * v / (U * r) + u * v / (V * r))]])
+    u1, u2, v1, v2 = q[0] - b, q[0] + b, q[1] - c, q[1] + c
+    return corner(u2, v2) - corner(u2, v1) - corner(u1, v2) + corner(u1, v1)
+
+
+def cuboid_jacobian(dim, pol, p):
+    """`coulombJac dim pol p` of Lemmas/CuboidDiv.lean: the nine partial derivatives of magnet_cuboid_Bfield off the face
+    planes (Props/C14 `cuboid_partials`)"""
+    a, b, c = np.asarray(dim, float) / 2
+    x, y, z = p
+    cyc = lambda J: np.array([[J[2, 2], J[2, 0], J[2, 1]], [J[0, 2], J[0, 0], J[0, 1]], [J[1, 2], J[1, 0], J[1, 1]]])
+    swp = lambda J: np.array([[J[0, 0], J[0, 2], J[0, 1]], [J[2, 0], J[2, 2], J[2, 1]], [J[1, 0], J[1, 2], J[1, 1]]])
+    tot = (pol[0] * (cyc(_rect_jac(b, c, a, (y, z, x))) - cyc(_rect_jac(b, c, -a, (y, z, x))))
+           + pol[1] * (swp(_rect_jac(a, c, b, (x, z, y))) - swp(_rect_jac(a, c, -b, (x, z, y))))
+           + pol[2] * (_rect_jac(a, b, c, (x, y, z)) - _rect_jac(a, b, -c, (x, y, z))))
+    return tot / (4 * np.pi)
+
+
+def cuboid_local_laws(ctx, n):
+    """the proved Jacobian of the Cuboid closed form against 4th-order central differences of the REAL kernel, at observers
+    in all octants, outside and strictly inside, off the face planes; its trace (div B) and antisymmetric part (curl)"""
+    from magpylib._src.fields.field_BH_cuboid import magnet_cuboid_Bfield
+    rng, fails, worst = ctx.rng, [], 0.0
+    for _ in range(n):
+        nps = np.random.default_rng(rng.randrange(2**31))
+        dim, pol = nps.uniform(0.3, 3.0, 3), nps.normal(size=3)
+        if rng.random() < 0.4:
+            p = nps.uniform(-0.9, 0.9, 3) * dim / 2          # strictly inside
+        else:
+            p = nps.uniform(-2.5, 2.5, 3) * dim
+        gap = np.abs(np.abs(p) - dim / 2).min()
+        if gap < 0.05 * dim.min():
+            continue
+        h = 2e-3 * gap
+        B = lambda q: magnet_cuboid_Bfield(observers=np.atleast_2d(q), dimensions=np.tile(dim, (len(np.atleast_2d(q)), 1)),
+                                           polarizations=np.tile(pol, (len(np.atleast_2d(q)), 1)))
+        J = np.zeros((3, 3))
+        for j in range(3):
+            e = np.zeros(3)
+            e[j] = h
+            f = B(np.array([p + 2 * e, p + e, p - e, p - 2 * e]))
+            J[:, j] = (-f[0] + 8 * f[1] - 8 * f[2] + f[3]) / (12 * h)
+        Ja = cuboid_jacobian(dim, pol, p)
+        scale = np.abs(Ja).max() + 1e-300
+        err = max(np.abs(J - Ja).max(), abs(np.trace(J)), np.abs(J - J.T).max()) / scale
+        worst = max(worst, float(err))
+        if not err < 1e-6:
+            fails.append({"key": "integral-law:cuboid-local-jacobian",
+                          "desc": f"partial derivatives of magnet_cuboid_Bfield differ from the proved Jacobian / div B, curl B not zero off the face planes (relative {err:.2g})",
+                          "replay": {"dimension": dim.tolist(), "polarization": pol.tolist(), "observer": p.tolist(), "rel": float(err)}})
+    return fails, worst
+
+
 def sweep(ctx, n):
     import magpylib as magpy
 
@@ -168,4 +232,10 @@ def sweep(ctx, n):
             if not err < tol:
                 fails.append({"key": f"integral-law:{key}", "desc": f"flux/circulation law violated (relative {err:.2g})",
                               "replay": {"kind": kind, "source": repr(src), "centre": np.asarray(c).tolist(), "rel": float(err)}})
+    # after the main loop (the case sequence above is unchanged): the proved Cuboid Jacobian against the real kernel
+    with warnings.catch_warnings():
+        warnings.simplefilter("ignore")
+        f2, w2 = cuboid_local_laws(ctx, max(4, n // 4))
+    fails += f2
+    worst["cuboid-local-jacobian"] = w2
     return fails, {"c14_cases": done, "c14_worst": {k: float(f"{v:.3g}") for k, v in worst.items()}}
